@@ -100,3 +100,9 @@ pub assume_specification<T, F: FnOnce() -> T> [Option::<T>::get_or_insert_with] 
         old(o).is_none() ==> f.ensures((), *r),
         *final(o) == Some(*final(r));
 
+
+// Ordering::then: lexicographic chaining
+pub assume_specification [Ordering::then] (a: Ordering, b: Ordering) -> (r: Ordering)
+    ensures r == (if a == Ordering::Equal { b } else { a });
+pub assume_specification [Ordering::reverse] (a: Ordering) -> (r: Ordering)
+    ensures r == (match a { Ordering::Less => Ordering::Greater, Ordering::Greater => Ordering::Less, Ordering::Equal => Ordering::Equal });
